@@ -12,7 +12,8 @@ record = `b<id>:<n1>+<n2>+…`  scripted encoder: slices of these sizes (`b<id>:
 
 observation
   seq : `,`-joined hex file contents, one per op (read by a second thread right after the op returned)
-  conc: <hex of the final file> `/` <`|`-joined per thread: `,`-joined ids of acknowledged records>
+  conc: <hex of the final file> `/` <`|`-joined per thread: `,`-joined ids of acknowledged records> `/`
+        <number of acknowledged records an independent reader could not find right after the ack>
 -/
 namespace Driver.C04
 open Log4rs.Proto Log4rs.Rolling Driver
@@ -130,9 +131,9 @@ def handleConc (mS preS ampS thS : String) (obs : List String) : Answer :=
   let thr := (decList '|' thS).map (fun t => mapM? decRec (decList ',' t))
   match decMode mS, decOpt decBytesBig preS, decNat ampS, mapM? id thr, obs with
   | some m, some pre, some amp, some threads, [implObs] =>
-    let (fileS, acksS) := match splitOnChar '/' implObs with
-      | [a, b] => (a, b)
-      | _ => ("", "")
+    let (fileS, acksS, invS) := match splitOnChar '/' implObs with
+      | [a, b, c] => (a, b, c)
+      | _ => ("", "", "")
     match decBytesBig fileS, mapM? (fun t => mapM? decNat (decList ',' t)) (decList '|' acksS) with
     | some file, some acks =>
       if acks.length ≠ threads.length then badCase "acks arity" else
@@ -141,16 +142,21 @@ def handleConc (mS preS ampS thS : String) (obs : List String) : Answer :=
       let acked : List (List Bytes) := (threads.zip acks).map fun (t, ids) =>
         (t.filter (fun r => ids.contains r.id)).map (fun r => recBytes r.chunks)
       let wellAcked := (threads.zip acks).all fun (t, ids) => (t.map (·.id)).take ids.length == ids
-      let ok := wellAcked && Spec.isMergeOfWhole initial acked file
+      let merged := wellAcked && Spec.isMergeOfWhole initial acked file
+      -- every acknowledged record was readable by an independent reader at the moment of its
+      -- acknowledgement (theorem C04_schedule_serial: the flush precedes the return)
+      let visible := invS = "0"
+      let ok := merged && visible
       -- any outcome the lock machine admits (theorem C04_schedule_serial: exactly the merges) is the
       -- model's observation; otherwise the serial schedule thread 0, thread 1, … is shown
       let serial := initial ++ (threads.flatMap (fun t => t.flatMap (fun r => recBytes r.chunks)))
       let allAcks := encList "|" (threads.map (fun t => encList "," (t.map (fun r => toString r.id))))
-      let model := if ok then fileS ++ "/" ++ acksS else hex serial ++ "/" ++ allAcks
+      let model := if ok then fileS ++ "/" ++ acksS ++ "/0" else hex serial ++ "/" ++ allAcks ++ "/0"
       let modeName := if m = .append then "append" else "truncate"
       let total := (threads.map List.length).sum
-      let spec := if ok then "ok" else
+      let spec := if ok then "ok" else if !merged then
         "FAIL:final file is not initial ++ an order-preserving merge of whole acknowledged records;sig=C04/conc-" ++ modeName
+        else "FAIL:" ++ invS ++ " acknowledged record(s) were not readable from the file right after append returned;sig=C04/conc-visibility"
       let big := threads.any (fun t => t.any (fun r => (recBytes r.chunks).length > CAP))
       let multi := threads.any (fun t => t.any (fun r => r.chunks.length > 1))
       let tags := ["conc", modeName, "threads-" ++ toString threads.length, "amp-" ++ toString amp] ++
